@@ -252,15 +252,18 @@ def check(ctx):
     ui = m.func(CL, 'Cloader._update_info')
     gu = cfg_of(ui)
     tid = ui.params[1]
-    geo_st = [n for n in gu.nodes if n.kind == 'stmt' and isinstance(n.ast, ast.Assign) and isinstance(n.ast.targets[0], ast.Attribute) and n.ast.targets[0].attr in GEO]
+    def geo_targets(n):
+        t0 = n.ast.targets[0]
+        return [e_ for e_ in (t0.elts if isinstance(t0, (ast.Tuple, ast.List)) else [t0]) if isinstance(e_, ast.Attribute) and e_.attr in GEO]
+    geo_st = [(n, e_) for n in gu.nodes if n.kind == 'stmt' and isinstance(n.ast, ast.Assign) for e_ in geo_targets(n)]
     ctx.need(len(geo_st) >= 3, '_update_info: geometry stores not found')
     want_any = [{fact_key("struct.unpack('<BB', answer.data[0:2]) == (%s, 16)" % tid, True)},
                 {fact_key('answer.data[0] == %s' % tid, True), fact_key('answer.data[1] == 16', True)}]
-    for n in geo_st:
+    for n, e_ in geo_st:
         keys = set(gu.fact_keys_at(n))
-        ctx.inst('R1', ui, 'geometry-from-the-asked-target:' + n.ast.targets[0].attr, any(w <= keys for w in want_any),
+        ctx.inst('R1', ui, 'geometry-from-the-asked-target:' + e_.attr, any(w <= keys for w in want_any),
                  '%s is stored only from an answer whose first bytes are (%s, 0x10): an answer of another target (or a late one) carries another flash size' %
-                 (norm(n.ast.targets[0]), tid), line=n.ast.lineno)
+                 (norm(e_), tid), line=n.ast.lineno)
 
     # ---- R5: the image that is flashed is the file: every FlashArtifact is built from bytes as they were read (or from a literal) -----
     n_art = 0
